@@ -88,6 +88,16 @@ def vcp(prop, replay):
              stubs=VERIFY_STUBS, defines=["VERIF_TU_JWT_VERIFY"],
              expect=[c + "\\.postcondition\\.3", "contract_C04___verify_claims\\.precondition"], replay=replay)
 
+def vc(prop, replay=None):
+    c = "contract_%s_jwt_verify_complete" % prop
+    return U(prop + ".jwt_verify_complete", "jwt_verify_complete (libjwt/jwt-verify.c)", VERIFY_C, "contracts/jwt_verify_c.h",
+             "OPS_TAKE_ADDRESSES(all); jwt_t *jwt; jwt_config_t *c; size_t n; __CPROVER_assume(n >= 1 && n < 0x10000000); char *tok = VS(n); unsigned pl; __CPROVER_assume(pl < n); jwt_verify_complete(jwt, c, tok, pl);",
+             "jwt_verify_complete/" + c,
+             replace=["__verify_config_post/contract_all___verify_config_post", "jwt_verify_sig/contract_all_jwt_verify_sig"],
+             stubs=VERIFY_STUBS + ["stubs/alloc.c"], defines=["VERIF_TU_JWT_VERIFY"], pre=[VS],
+             expect=[c + "\\.postcondition\\.6", "contract_all_jwt_verify_sig\\.precondition", "contract_all___verify_config_post\\.precondition"],
+             replay=replay)
+
 R_C02 = {"driver": "replay/r_C02.c", "replace_tu": [VERIFY_C]}
 R_C04 = {"driver": "replay/r_C04.c", "replace_tu": [VERIFY_C]}
 
@@ -116,7 +126,9 @@ def c01_chain():
           stubs=JWT_STUBS, defines=["VERIF_TU_JWT"], pre=[VS],
           expect=["contract_C01_jwt_verify_sig\\.postcondition\\.6", "contract_nogate_ops_verify_sha_pem\\.precondition"]),
     ]
-P["C01"] = {"property": "C01", "level": "proof", "units": c01_chain() + gate_chain("all", name_prefix="C01.all")}
+P["C01"] = {"property": "C01", "level": "proof", "units": c01_chain() + gate_chain("all", name_prefix="C01.all") + [
+    vcp("all", R_C02), vc("C01")]}
+P["C01"]["units"][-2]["name"] = "C01.all.__verify_config_post"
 
 # =============================== C02 =======================================
 def setkey_units(prop="C02"):
@@ -157,7 +169,7 @@ P["C02"] = {"property": "C02", "level": "proof", "units": [
 ] + setkey_units() + gate_chain("C02")}
 
 # =============================== C03 =======================================
-P["C03"] = {"property": "C03", "level": "proof", "units": [vcp("C03", R_C02)]}
+P["C03"] = {"property": "C03", "level": "proof", "units": [vcp("C03", R_C02), vc("C03")]}
 
 # =============================== C04 =======================================
 P["C04"] = {"property": "C04", "level": "proof", "units": [
@@ -182,6 +194,7 @@ P["C04"] = {"property": "C04", "level": "proof", "units": [
       "jwt_checker_claim_get/contract_C04_jwt_checker_claim_get", stubs=LIBC + ["stubs/jansson.c", "stubs/alloc.c"],
       extra_sources=["libjwt/jwt-setget.c"], expect=["contract_C04_jwt_checker_claim_get\\.postcondition\\.1"]),
     vcp("C04", dict(R_C04, args=["fn=post"])),
+    vc("C04"),
 ]}
 
 # ============================ parsing units =================================
@@ -191,32 +204,33 @@ def parse_units(prop, clauses_name):
     us.append(U(prop + ".jwt_parse_head", "jwt_parse_head (libjwt/jwt-verify.c)", VERIFY_C, "contracts/jwt_verify_c.h",
         "jwt_t *jwt; size_t n; __CPROVER_assume(n < 0x10000000); char *h = VS(n); jwt_parse_head(jwt, h);",
         "jwt_parse_head/contract_%s_jwt_parse_head" % clauses_name,
-        replace=["jwt_base64uri_decode_to_json/contract_jwt_base64uri_decode_to_json", "jwt_str_alg/contract_C02_jwt_str_alg"],
-        stubs=VERIFY_JSON_STUBS, defines=["VERIF_TU_JWT_VERIFY"], pre=[VS], flags=[],
+        replace=["jwt_str_alg/contract_C02_jwt_str_alg"],
+        stubs=VERIFY_JSON_STUBS + ["stubs/b64_shape.c"], defines=["VERIF_TU_JWT_VERIFY"], pre=[VS], flags=[],
         expect=["contract_%s_jwt_parse_head\\.postcondition\\.1" % clauses_name, "contract_C02_jwt_str_alg\\.precondition"],
-        replay={"driver": "replay/r_C14.c"} if prop == "C14" else None))
+        replay={"driver": "replay/r_C14.c"} if prop == "C14" else None,
+        **({"checks": "none", "safety_unit": "C14.jwt_parse_head"} if prop == "C02" else {})))
     return us
+# NOTE jwt_parse_head / jwt_parse_payload are verified together with the real
+# body of the static jwt_base64uri_decode_to_json they call.
 P["C14"] = {"property": "C14", "level": "proof", "units": parse_units("C14", "C14") + [
     U("C14.jwt_parse_payload", "jwt_parse_payload (libjwt/jwt-verify.c)", VERIFY_C, "contracts/jwt_verify_c.h",
       "jwt_t *jwt; size_t n; __CPROVER_assume(n < 0x10000000); char *h = VS(n); jwt_parse_payload(jwt, h);",
       "jwt_parse_payload/contract_C14_jwt_parse_payload",
-      replace=["jwt_base64uri_decode_to_json/contract_jwt_base64uri_decode_to_json"],
-      stubs=VERIFY_JSON_STUBS, defines=["VERIF_TU_JWT_VERIFY"], pre=[VS], flags=[],
+      stubs=VERIFY_JSON_STUBS + ["stubs/b64_shape.c"], defines=["VERIF_TU_JWT_VERIFY"], pre=[VS], flags=[],
       expect=["contract_C14_jwt_parse_payload\\.postcondition\\.1"]),
-    vcp("C14", R_C02),
+    vcp("C14", R_C02), vc("C14"),
 ]}
-P["C02"]["units"] += parse_units("C02", "C02")
+P["C02"]["units"] += parse_units("C02", "C02") + [vc("C02")]
 P["C06"] = {"property": "C06", "level": "proof", "units": [
     U("C06.jwt_base64uri_decode_to_json", "jwt_base64uri_decode_to_json (libjwt/jwt-verify.c)", VERIFY_C, "contracts/jwt_verify_c.h",
       "size_t n; __CPROVER_assume(n < 0x10000000); char *h = VS(n); jwt_base64uri_decode_to_json(h);",
       "jwt_base64uri_decode_to_json/contract_jwt_base64uri_decode_to_json",
-      replace=["jwt_base64uri_decode/contract_shape_jwt_base64uri_decode"],
-      stubs=VERIFY_JSON_STUBS, defines=["VERIF_TU_JWT_VERIFY"], pre=[VS],
-      expect=["contract_jwt_base64uri_decode_to_json\\.postcondition\\.1", "contract_shape_jwt_base64uri_decode\\.precondition"]),
+      stubs=VERIFY_JSON_STUBS + ["stubs/b64_shape.c"], defines=["VERIF_TU_JWT_VERIFY"], pre=[VS], flags=[],
+      expect=["contract_jwt_base64uri_decode_to_json\\.postcondition\\.1"]),
 ]}
 
 # =============================== C09 =======================================
-P["C09"] = {"property": "C09", "level": "proof", "units": gate_chain("C09")}
+P["C09"] = {"property": "C09", "level": "proof", "units": gate_chain("C09") + [vc("C09")]}
 
 # ---------------------------------------------------------------------------
 def main():
